@@ -57,6 +57,31 @@ theorem scaled_ratio (num den : Nat) (s : Int) :
     simp [this, zpow_neg, zpow_natCast]
     field_simp
 
+theorem scaled_lt_iff (num den : Nat) (s : Int) (hd : 0 < den) (c : Nat) :
+    (scaled num den s).1 < c * (scaled num den s).2 ↔ (num : ℚ) / den * (2 : ℚ) ^ s < c := by
+  have hp : (0 : ℚ) < ((scaled num den s).2 : ℚ) := by exact_mod_cast scaled_snd_pos num s hd
+  rw [← scaled_ratio, div_lt_iff₀ hp]
+  exact_mod_cast Iff.rfl
+
+theorem scaled_le_iff (num den : Nat) (s : Int) (hd : 0 < den) (c : Nat) :
+    c * (scaled num den s).2 ≤ (scaled num den s).1 ↔ (c : ℚ) ≤ (num : ℚ) / den * (2 : ℚ) ^ s := by
+  have hp : (0 : ℚ) < ((scaled num den s).2 : ℚ) := by exact_mod_cast scaled_snd_pos num s hd
+  rw [← scaled_ratio, le_div_iff₀ hp]
+  exact_mod_cast Iff.rfl
+
+/-- one more binary place doubles the ratio -/
+theorem ratio_succ (q : ℚ) (s : Int) : q * (2 : ℚ) ^ (s + 1) = 2 * (q * (2 : ℚ) ^ s) := by
+  rw [zpow_add_one₀ (by norm_num : (2 : ℚ) ≠ 0)]; ring
+
+theorem ratio_mono (q : ℚ) (hq : 0 ≤ q) {s s' : Int} (h : s ≤ s') :
+    q * (2 : ℚ) ^ s ≤ q * (2 : ℚ) ^ s' :=
+  mul_le_mul_of_nonneg_left (zpow_le_zpow_right₀ (by norm_num) h) hq
+
+/-- a strictly larger shift at least doubles the ratio -/
+theorem ratio_double (q : ℚ) (hq : 0 ≤ q) {s s' : Int} (h : s < s') :
+    2 * (q * (2 : ℚ) ^ s) ≤ q * (2 : ℚ) ^ s' := by
+  rw [← ratio_succ]; exact ratio_mono q hq h
+
 /-! ### `shiftOf` -/
 
 theorem shiftOf_def (num den : Nat) :
@@ -108,5 +133,191 @@ theorem shift0_boundsQ (num den : Nat) (hn : 0 < num) (hd : 0 < den) :
           apply div_lt_div_of_pos_right nb hdq
       _ ≤ (2 : ℚ) ^ (a + 1) / (2 : ℚ) ^ b := by
           apply div_le_div_of_nonneg_left (h2 _).le (h2 _) da
+
+/-- **shiftOf_spec** over ℚ: with `s = shiftOf num den`, `s ≤ 1074`, `(num/den)·2^s < 2^53` and,
+unless capped (`s < 1074`), `2^52 ≤ (num/den)·2^s`. -/
+theorem shiftOf_specQ (num den : Nat) (hn : 0 < num) (hd : 0 < den) :
+    shiftOf num den ≤ 1074 ∧
+    (num : ℚ) / den * (2 : ℚ) ^ (shiftOf num den) < 2 ^ 53 ∧
+    (shiftOf num den < 1074 → (2 : ℚ) ^ 52 ≤ (num : ℚ) / den * (2 : ℚ) ^ (shiftOf num den)) := by
+  obtain ⟨lo, hi⟩ := shift0_boundsQ num den hn hd
+  have hq : (0 : ℚ) < (num : ℚ) / den := by
+    apply div_pos <;> exact_mod_cast (by assumption)
+  have hcond : (scaled num den (52 - ((Nat.log2 num : Int) - (Nat.log2 den : Int)))).1 /
+      (scaled num den (52 - ((Nat.log2 num : Int) - (Nat.log2 den : Int)))).2 < 2 ^ 52 ↔
+      (num : ℚ) / den * (2 : ℚ) ^ (52 - ((Nat.log2 num : Int) - (Nat.log2 den : Int))) < 2 ^ 52 := by
+    rw [Nat.div_lt_iff_lt_mul (scaled_snd_pos num _ hd), scaled_lt_iff num den _ hd]
+    norm_num
+  rw [shiftOf_def]
+  generalize (52 - ((Nat.log2 num : Int) - (Nat.log2 den : Int))) = s0 at *
+  generalize (num : ℚ) / den = q at *
+  have e51 : (2 : ℚ) ^ (51 : Int) = 2 ^ 51 := by norm_num
+  have e53 : (2 : ℚ) ^ (53 : Int) = 2 ^ 53 := by norm_num
+  rw [e51] at lo; rw [e53] at hi
+  have succ := ratio_succ q s0
+  have hcap : ∀ s : Int, 1074 < s → q * (2 : ℚ) ^ s < 2 ^ 53 → q * (2 : ℚ) ^ (1074 : Int) < 2 ^ 53 :=
+    fun s hs h => lt_of_le_of_lt (ratio_mono q hq.le (le_of_lt hs)) h
+  by_cases hc : (scaled num den s0).1 / (scaled num den s0).2 < 2 ^ 52
+  · have hc' := hcond.mp hc
+    simp only [hc, if_true]
+    have hi1 : q * (2 : ℚ) ^ (s0 + 1) < 2 ^ 53 := by rw [succ]; linarith
+    have lo1 : (2 : ℚ) ^ 52 ≤ q * (2 : ℚ) ^ (s0 + 1) := by rw [succ]; linarith
+    split
+    · rename_i hgt
+      exact ⟨le_refl _, hcap _ hgt hi1, fun h => absurd h (lt_irrefl _)⟩
+    · rename_i hgt
+      exact ⟨not_lt.mp hgt, hi1, fun _ => lo1⟩
+  · have hc' : ¬ q * (2 : ℚ) ^ s0 < 2 ^ 52 := fun h => hc (hcond.mpr h)
+    simp only [hc, if_false]
+    split
+    · rename_i hgt
+      exact ⟨le_refl _, hcap _ hgt hi, fun h => absurd h (lt_irrefl _)⟩
+    · rename_i hgt
+      exact ⟨not_lt.mp hgt, hi, fun _ => not_lt.mp hc'⟩
+
+/-- **shiftOf_spec** — on the model's own vocabulary. -/
+theorem shiftOf_spec (num den : Nat) (hn : 0 < num) (hd : 0 < den) :
+    shiftOf num den ≤ 1074 ∧
+    (scaled num den (shiftOf num den)).1 < 2 ^ 53 * (scaled num den (shiftOf num den)).2 ∧
+    (shiftOf num den < 1074 →
+      2 ^ 52 * (scaled num den (shiftOf num den)).2 ≤ (scaled num den (shiftOf num den)).1) := by
+  obtain ⟨h1, h2, h3⟩ := shiftOf_specQ num den hn hd
+  refine ⟨h1, ?_, fun h => ?_⟩
+  · rw [scaled_lt_iff num den _ hd]; exact_mod_cast h2
+  · rw [scaled_le_iff num den _ hd]; exact_mod_cast h3 h
+
+/-- the shift is determined by its specification -/
+theorem shiftOf_uniqueQ (num den : Nat) (hn : 0 < num) (hd : 0 < den) (s : Int) (h1 : s ≤ 1074)
+    (h2 : (num : ℚ) / den * (2 : ℚ) ^ s < 2 ^ 53)
+    (h3 : s < 1074 → (2 : ℚ) ^ 52 ≤ (num : ℚ) / den * (2 : ℚ) ^ s) : shiftOf num den = s := by
+  obtain ⟨t1, t2, t3⟩ := shiftOf_specQ num den hn hd
+  have hq : (0 : ℚ) ≤ (num : ℚ) / den := by
+    apply div_nonneg <;> exact_mod_cast Nat.zero_le _
+  rcases lt_trichotomy (shiftOf num den) s with h | h | h
+  · have := ratio_double _ hq h
+    have := t3 (lt_of_lt_of_le h h1)
+    linarith
+  · exact h
+  · have := ratio_double _ hq h
+    have := h3 (lt_of_lt_of_le h t1)
+    linarith
+
+/-- cross-multiplied order of fractions as order of rationals -/
+theorem frac_le_iff (n1 d1 n2 d2 : Nat) (hd1 : 0 < d1) (hd2 : 0 < d2) :
+    n1 * d2 ≤ n2 * d1 ↔ (n1 : ℚ) / d1 ≤ (n2 : ℚ) / d2 := by
+  have h1 : (0 : ℚ) < d1 := by exact_mod_cast hd1
+  have h2 : (0 : ℚ) < d2 := by exact_mod_cast hd2
+  rw [div_le_div_iff₀ h1 h2]
+  exact_mod_cast Iff.rfl
+
+/-- **shiftOf_antitone** — a larger positive fraction needs a smaller (or equal) shift. -/
+theorem shiftOf_antitone (n1 d1 n2 d2 : Nat) (hn1 : 0 < n1) (hd1 : 0 < d1) (hd2 : 0 < d2)
+    (h : n1 * d2 ≤ n2 * d1) : shiftOf n2 d2 ≤ shiftOf n1 d1 := by
+  have hn2 : 0 < n2 := by
+    rcases Nat.eq_zero_or_pos n2 with h0 | h0
+    · subst h0; have := Nat.mul_pos hn1 hd2; omega
+    · exact h0
+  obtain ⟨a1, a2, a3⟩ := shiftOf_specQ n1 d1 hn1 hd1
+  obtain ⟨b1, b2, b3⟩ := shiftOf_specQ n2 d2 hn2 hd2
+  have hq := (frac_le_iff n1 d1 n2 d2 hd1 hd2).mp h
+  have hq1 : (0 : ℚ) ≤ (n1 : ℚ) / d1 := by
+    apply div_nonneg <;> exact_mod_cast Nat.zero_le _
+  by_contra hlt
+  have hlt : shiftOf n1 d1 < shiftOf n2 d2 := not_le.mp hlt
+  have h5 := ratio_double _ hq1 hlt
+  have h6 := a3 (lt_of_lt_of_le hlt b1)
+  have h7 : (n1 : ℚ) / d1 * (2 : ℚ) ^ (shiftOf n2 d2) ≤ (n2 : ℚ) / d2 * (2 : ℚ) ^ (shiftOf n2 d2) :=
+    mul_le_mul_of_nonneg_right hq (zpow_pos (by norm_num) _).le
+  linarith
+
+/-! ### `rne` on exact multiples and bounds -/
+
+theorem rne_exact (m d : Nat) (hd : 0 < d) : rne (m * d) d = m := by
+  rw [rne_def, Nat.mul_mod_left, Nat.mul_div_cancel _ hd]
+  have : ¬ (2 * 0 > d ∨ 2 * 0 = d ∧ m % 2 = 1) := by omega
+  rw [if_neg this]
+
+theorem rne_le_of_le_mul (n d c : Nat) (hd : 0 < d) (h : n ≤ c * d) : rne n d ≤ c := by
+  have := rne_mono n (c * d) d hd h
+  rwa [rne_exact c d hd] at this
+
+theorem le_rne_of_mul_le (n d c : Nat) (hd : 0 < d) (h : c * d ≤ n) : c ≤ rne n d := by
+  have := rne_mono (c * d) n d hd h
+  rwa [rne_exact c d hd] at this
+
+/-! ### `roundMag` -/
+
+/-- the (unsaturated) magnitude bits `(1074 − s)·2^52 + rne((num/den)·2^s)` -/
+def magBits (num den : Nat) : Nat :=
+  (1074 - shiftOf num den).toNat * 2 ^ 52 +
+    rne (scaled num den (shiftOf num den)).1 (scaled num den (shiftOf num den)).2
+
+theorem roundMag_eq (num den : Nat) (hn : 0 < num) (hd : 0 < den) :
+    roundMag num den =
+      if magBits num den ≥ 0x7FF0000000000000 then posInf else UInt64.ofNat (magBits num den) := by
+  have h1 : (num == 0) = false := by simp; omega
+  have h2 : (den == 0) = false := by simp; omega
+  unfold roundMag
+  simp only [h1, h2, Bool.or_self, Bool.false_eq_true, if_false]
+  rfl
+
+theorem roundMag_toNat (num den : Nat) (hn : 0 < num) (hd : 0 < den) :
+    (roundMag num den).toNat = min (magBits num den) 0x7FF0000000000000 := by
+  rw [roundMag_eq num den hn hd]
+  split
+  · rename_i h
+    have : posInf.toNat = 0x7FF0000000000000 := by decide
+    rw [this]; omega
+  · rename_i h
+    rw [UInt64.toNat_ofNat']
+    have : magBits num den < 2 ^ 64 := by omega
+    rw [Nat.mod_eq_of_lt this]; omega
+
+/-- the magnitude never has the sign bit and never exceeds +Inf -/
+theorem roundMag_le_inf (num den : Nat) : (roundMag num den).toNat ≤ 0x7FF0000000000000 := by
+  rcases Nat.eq_zero_or_pos num with h | hn
+  · subst h; simp [roundMag]
+  rcases Nat.eq_zero_or_pos den with h | hd
+  · subst h; simp [roundMag]
+  rw [roundMag_toNat num den hn hd]; omega
+
+theorem magBits_mono (n1 d1 n2 d2 : Nat) (hn1 : 0 < n1) (hd1 : 0 < d1) (hd2 : 0 < d2)
+    (h : n1 * d2 ≤ n2 * d1) : magBits n1 d1 ≤ magBits n2 d2 := by
+  have hn2 : 0 < n2 := by
+    rcases Nat.eq_zero_or_pos n2 with h0 | h0
+    · subst h0; have := Nat.mul_pos hn1 hd2; omega
+    · exact h0
+  have hs := shiftOf_antitone n1 d1 n2 d2 hn1 hd1 hd2 h
+  obtain ⟨a1, a2, a3⟩ := shiftOf_spec n1 d1 hn1 hd1
+  obtain ⟨b1, b2, b3⟩ := shiftOf_spec n2 d2 hn2 hd2
+  unfold magBits
+  rcases Int.lt_or_eq_of_le hs with hlt | heq
+  · -- strictly larger shift for the smaller number: q1 ≤ 2^53, q2 ≥ 2^52, exponent gap ≥ 1
+    have q1 := rne_le_of_le_mul _ _ (2 ^ 53) (scaled_snd_pos n1 _ hd1) (Nat.le_of_lt a2)
+    have q2 := le_rne_of_mul_le _ _ (2 ^ 52) (scaled_snd_pos n2 _ hd2) (b3 (by omega))
+    have e : (1074 - shiftOf n1 d1).toNat + 1 ≤ (1074 - shiftOf n2 d2).toNat := by omega
+    have := Nat.mul_le_mul_right (2 ^ 52) e
+    omega
+  · rw [heq]
+    apply Nat.add_le_add_left
+    apply rne_mono_rat _ _ _ _ (scaled_snd_pos n1 _ hd1) (scaled_snd_pos n2 _ hd2)
+    simp only [scaled_fst, scaled_snd]
+    calc n1 * 2 ^ (shiftOf n1 d1).toNat * (d2 * 2 ^ (-shiftOf n1 d1).toNat)
+        = n1 * d2 * (2 ^ (shiftOf n1 d1).toNat * 2 ^ (-shiftOf n1 d1).toNat) := by ring
+      _ ≤ n2 * d1 * (2 ^ (shiftOf n1 d1).toNat * 2 ^ (-shiftOf n1 d1).toNat) :=
+          Nat.mul_le_mul_right _ h
+      _ = n2 * 2 ^ (shiftOf n1 d1).toNat * (d1 * 2 ^ (-shiftOf n1 d1).toNat) := by ring
+
+/-- **roundMag_mono** — rounding is monotone in the rational value (as unsigned bit patterns;
+the saturation to +Inf is monotone as well). -/
+theorem roundMag_mono (n1 d1 n2 d2 : Nat) (hn1 : 0 < n1) (hd1 : 0 < d1) (hd2 : 0 < d2)
+    (h : n1 * d2 ≤ n2 * d1) : (roundMag n1 d1).toNat ≤ (roundMag n2 d2).toNat := by
+  have hn2 : 0 < n2 := by
+    rcases Nat.eq_zero_or_pos n2 with h0 | h0
+    · subst h0; have := Nat.mul_pos hn1 hd2; omega
+    · exact h0
+  rw [roundMag_toNat n1 d1 hn1 hd1, roundMag_toNat n2 d2 hn2 hd2]
+  have := magBits_mono n1 d1 n2 d2 hn1 hd1 hd2 h
+  omega
 
 end F64
